@@ -3,6 +3,11 @@
 import json, subprocess
 ALL=[f"C{i:02d}" for i in range(1,20)]
 CLAIMED={
+ "C12": dict(
+   text="Block-recycling search on disks with 12 and 40 data blocks (every freed block is reused at once): breadth-first over fills with recognisable patterns, truncations to aligned/unaligned sizes, growth, partial writes, writes past the end, removal, re-creation, restart; every file read in full after every transition and compared byte for byte with the reference; plus every crash image of the recycling histories, recovered and compared byte-exactly with the prefix states.",
+   note="Trusted: reference model bytes. On a full disk a READ of a hole may return short (materialising the hole needs a block) and a WRITE may be short; both are tolerated as implementation-only failures as long as the bytes returned are right. The zero-scan of free blocks is not a verdict (mechanism, not property). Bounds: depth, two files, pattern alphabet.",
+   technique="explicit-state search + crash-image enumeration of the implementation with a byte-exact reference oracle",
+   ref="DESIGN.md 4 (C12)"),
  "C09": dict(
    text="Differential exhaustive check without expected values: on disks with 1..N free blocks and a large one, in every state reached by a bounded building sequence, every request of a list of candidates that fail part-way is issued; if it returns an error, dump (incl. handles), free counts, fsck, reclaim and cache audits must equal those of the run without it, and every bounded suffix of further operations (incl. restart) must reply and end identically.",
    note="Trusted: determinism of the controlled executions (the two runs differ only by the failed request; server-chosen times and inode numbers are excluded from the suffix comparison). Bounds: building depth, candidate list, suffix length, disk sizes; nearly-exhausted inode tables are not built (32k creates) - inode exhaustion is exercised by C15's fill only.",
